@@ -7,7 +7,10 @@ nesting level), checks Parse(Bytes(e)) = e, and prints each encoding together wi
 mutation of it (every truncation; every byte replaced by 0, 1, 0x18, 0xff, +1; a byte appended). The harness writes each
 tree with the real writer (bytes must equal the reference encoding), decodes each input with every public accessor of
 the real reader under a panic guard and an iteration budget, and re-encodes what was decoded (must reproduce the bytes
-wherever the reference says well-formed)."""
+wherever the reference says well-formed).  Integer values (TlvInt.tla: boundary palette as 8-byte two's-complement lists,
+which widths hold a value, what an encoded integer denotes) go through every value-typed entry point of the writer
+(i8..i64, u8..u64, primitive ToTLV, a derived structure): the bytes must denote the value per the grammar and the real
+reader must return it."""
 import json, os
 import vlib
 from vlib import Check
@@ -27,11 +30,20 @@ def run(tier, seed):
         raise vlib.ToolError("generator produced only %d values" % len(vals))
     vpath = os.path.join(wd, "values.ndjson")
     vlib.write_ndjson(vpath, vals)
+    ints, igen, idist = vlib.tlc_collect("C16", "TlvInt.tla", "TlvInt.cfg", workers=1, timeout=300)
+    if len(ints) < 20:
+        raise vlib.ToolError("TlvInt produced only %d values" % len(ints))
+    ipath = os.path.join(wd, "ints.ndjson")
+    vlib.write_ndjson(ipath, ints)
     tpath = os.path.join(wd, "trace.ndjson")
-    summ = vlib.harness(["c16", "--behaviours", vpath, "--out", tpath], timeout=3000)
+    summ = vlib.harness(["c16", "--behaviours", vpath, "--ints", ipath, "--out", tpath], timeout=3000)
     tr = vlib.read_ndjson(tpath)
     n_valid = 0
     for t in tr:
+        if t.get("ev") == "Int":
+            if not t["ok"]:
+                ck.violation("C16|int|%s" % t["entry"], "integer %s written through %s does not come back as the same value: %s" % (t["v"], t["entry"], t["msg"][:200]), {"input": t})
+            continue
         if t["kind"] == "valid":
             n_valid += 1
         what = None
@@ -51,8 +63,8 @@ def run(tier, seed):
     n_mut = sum(len(v["muts"]) for v in vals)
     n_mut_ok = sum(1 for v in vals for m in v["muts"] if m["ok"])
     ck.cov.update({
-        "states": distinct, "transitions": gen, "traces_validated_against_impl": summ["inputs"], "exhaustive": True,
-        "value_trees": len(vals), "mutated_inputs": n_mut, "mutated_inputs_wellformed_per_reference": n_mut_ok,
+        "states": distinct + idist, "transitions": gen + igen, "traces_validated_against_impl": summ["inputs"], "exhaustive": True,
+        "value_trees": len(vals), "integer_values": len(ints), "integer_entry_point_cases": summ.get("int_cases"), "mutated_inputs": n_mut, "mutated_inputs_wellformed_per_reference": n_mut_ok,
         "real": summ, "design_invariant": "RoundTrip: Parse(Bytes(e)) = e for every tree (checked by TLC)",
         "samples": [{"bytes": vals[0]["bytes"], "tree": vals[0]["tree"]}, {"bytes": vals[-1]["bytes"], "mutations": vals[-1]["muts"][:4]}],
     })
